@@ -284,6 +284,10 @@ def handle [Inhabited α] (C : Codec α) (op : String) : P String := do
   | "fwd" => do
       let x ← tok; let e ← parseExprW C; let p ← parsePointW C
       pure (showR C.show_ (fwdG N p x e))
+  | "fwd2" => do
+      -- second-order: forward mode in `y` of the symbolic partial in `x`
+      let x ← tok; let y ← tok; let e ← parseExprW C; let p ← parsePointW C
+      pure (showR C.show_ (fwdG N p y (symFwd N x e)))
   | "rev" => do
       let e ← parseExprW C; let p ← parsePointW C
       pure (showR (showAcc C) (numericPartials N p e))
